@@ -128,6 +128,8 @@ class Enc:
                     return self.truth(x)
             ka, kb = sorted([self.key(a), self.key(b)])
             return atom(f"{ka} == {kb}")
+        if op == "In" and b[0] in ("tuple", "list", "set") and all(x[0] == "const" for x in b[1]):
+            return f_or([self.cmp(("cmp", "Eq", a, x)) for x in b[1]])
         if op == "In":
             c = b
             while (c[0] == "mcall" and c[2] == "keys" and not c[3]) or (c[0] == "call" and c[1] in ("list", "set", "tuple") and len(c[2]) == 1):
